@@ -21,6 +21,9 @@ ObjNamedA == Titled(SObj(Props1("z", SInt), {"z"}), "A")
 Inline == SObj(Props1("a", SInt), {})
 Enum1 == Titled([type |-> "string", enum |-> << [t |-> "str", c |-> <<"r">>], [t |-> "str", c |-> <<"g">>] >>], "Colour")
 
+NewtypeId == [type |-> "string", minLength |-> 1]
+EnumCol == [type |-> "string", enum |-> << [t |-> "str", c |-> <<"r">>], [t |-> "str", c |-> <<"g">>] >>]
+
 Ref(defs, atoms) == [call |-> "add_ref_types", defs |-> defs, atoms |-> atoms]
 Typ(schema, hint, atoms) == [call |-> "add_type", schema |-> schema, hint |-> hint, atoms |-> atoms]
 Root(root, defs, atoms) == [call |-> "add_root_schema", doc |-> [root |-> root, defs |-> defs], atoms |-> atoms]
@@ -43,6 +46,14 @@ Tpl ==
     TTitleA |-> Typ(ObjNamedA, "", {}),
     TInline |-> Typ(Inline, "", {}),
     THintN  |-> Typ(Inline, "fresh", {}),
+    (* a newtype definition and an enum definition, re-added by hint, by title and by reference *)
+    RN    |-> Ref(<< <<"Id", NewtypeId>> >>, {"Id"}),
+    RE    |-> Ref(<< <<"Col", EnumCol>> >>, {"Col"}),
+    THintId |-> Typ(NewtypeId, "Id", {}),
+    TTitleId |-> Typ(Titled(NewtypeId, "Id"), "", {}),
+    TRefId |-> Typ(SRef("Id"), "", {}),
+    THintCol |-> Typ(EnumCol, "Col", {}),
+    TTitleCol |-> Typ(Titled(EnumCol, "Col"), "", {}),
     ROOT  |-> Root(Titled(SObj(Props1("a", SRef("A")), {}), "Root"), [A |-> ObjA], {}) ]
 
 Names == DOMAIN Tpl
